@@ -218,7 +218,13 @@ func (f *FnCtx) oblige(st *bstate, name, kind string, tags []string, goal, src, 
 }
 
 func (f *FnCtx) fail(format string, args ...interface{}) {
-	f.errs = append(f.errs, fmt.Sprintf(format, args...))
+	m := fmt.Sprintf(format, args...)
+	for _, e := range f.errs {
+		if e == m {
+			return
+		}
+	}
+	f.errs = append(f.errs, m)
 }
 
 // expandedSyms: registered symbols of a term, closed under definitions, not
